@@ -12,3 +12,17 @@ Theorem C08_request_contiguous :
     contig (rq_prev r + 1) (rq_entries r).
 Proof. exact request_contiguous. Qed.
 Print Assumptions C08_request_contiguous.
+
+(* follower half, on the plain log (transported to the buffered log by the C19 refinement):
+   an accepted contiguous request leaves the log gap-free (p_wf), keeps every entry in front of the
+   first conflict, and installs everything the log did not already hold *)
+From DE Require Import proofs.C19.
+Theorem C08_follower_gapfree :
+  forall p prev pterm es, p_wf p -> contig (prev + 1) es -> terms_mono (N.max 1 pterm) es -> (prev = 0 -> pterm = 0) ->
+    p_prev_matches p prev pterm = true -> (prev = 0 -> pb_idx p = 0) ->
+    let p' := fst (p_filter_append p prev pterm es) in
+    p_wf p' /\
+    (forall e, In e (pents p) -> (forall d, In d (drop_agreeing p es) -> e_idx e < e_idx d) -> In e (pents p')) /\
+    (forall e, In e (drop_agreeing p es) -> In e (pents p')).
+Proof. exact p_filter_append_gapfree. Qed.
+Print Assumptions C08_follower_gapfree.
